@@ -101,6 +101,16 @@ def body(ctx):
             pts = grid(ctx, bits, mm, ctx.q(120, 4000))
             if fn in ("tan", "tanh", "exp", "expm1", "sin", "cos", "sinh", "cosh"):
                 pts = [p for p in pts if abs(fpgen.b2f(p[0], bits)) <= mm and abs(fpgen.b2f(p[1], bits)) <= mm]
+            if fn in ("tan", "tanh"):
+                # neighbourhoods of the poles (pi/2 + k pi on the real resp. imaginary axis): the conditioning is fine relative to |result|,
+                # a cancelling denominator is not (finding ctan-pole-cancellation)
+                for k in (0, 1, -1, 2, -3, 5):
+                    for d in (2.0 ** -3, -2.0 ** -4, 2.0 ** -6, -2.0 ** -8, 0.0437, -0.0229):
+                        for e in (0.0229, -2.0 ** -5, 2.0 ** -7, -0.004, 0.0):
+                            a, b = math.pi / 2 + k * math.pi + d, e
+                            if d == 0.0 and e == 0.0:
+                                continue
+                            pts.append((fpgen.f2b(a, bits), fpgen.f2b(b, bits)) if fn == "tan" else (fpgen.f2b(b, bits), fpgen.f2b(a, bits)))
             for ch in rows_of(pts):
                 plan.append("%s %s %s 0 %s %s - -" % ("cxr" if fn in TABR else "cx1", fn, t, hx([p[0] for p in ch]), hx([p[1] for p in ch])))
                 meta[len(plan)] = (fn, [("c:" + fn, p[0], p[1]) for p in ch], bits)
